@@ -83,17 +83,26 @@ Definition pre_state (o : op) (old : version) : disk :=
   | _ => [(SEntry, complete_entry old)]
   end.
 
-(* storage.Get on one name after a restart: no file - miss; no metadata - the file is removed, miss;
-   with metadata the file's size must be the Content-Length of the stored head, or without one the
-   size recorded in the metadata, else the file is removed *)
+(* storage.Get on one name after a restart: no file - miss; no metadata attribute - miss, and the file is left
+   alone (since fix F42: it may be a fill in progress; what an interrupted fill left behind is cleared away by
+   GetWriter, below); with metadata the file's size must be the Content-Length of the stored head, or without one
+   the size recorded in the metadata, else the file is removed *)
 Inductive got := Miss | Hit (v : version) (data : str).
+
+(* storage.GetWriter for a fill (not a revalidation), called by the request that holds the key's lock: it refuses a
+   name that holds an entry, and clears away a file without metadata *)
+Definition writer_granted (d : disk) (s : slot) : bool :=
+  match dget d s with
+  | None => true
+  | Some f => match f_meta f with None => true | Some _ => false end
+  end.
 
 Definition recover (d : disk) (s : slot) : got * disk :=
   match dget d s with
   | None => (Miss, d)
   | Some f =>
     match f_meta f with
-    | None => (Miss, ddel d s)
+    | None => (Miss, d)
     | Some (v, n) =>
       if Z.eqb (slen (f_data f)) (if v_has_cl v then slen (v_body v) else n) then (Hit v (f_data f), d) else (Miss, ddel d s)
     end
